@@ -1,8 +1,9 @@
 SPECIFICATION SpecMc
-CONSTANT MaxOps = 4
-CONSTANT MaxTime = 3
+CONSTANT MaxOps = 3
+CONSTANT MaxTime = 2
 CONSTANT MaxAccrue = 1
 CONSTANT Amounts = {1, 2}
+CONSTANT BothRoutes = FALSE
 CONSTANT Witness = FALSE
 VIEW view
 INVARIANT ConservedInv
